@@ -7,6 +7,7 @@ from typing import Dict, List
 import z3
 
 from pyvc.interp import NORMAL, CollV, ExcV, Exit, Frame, Interp, LoopSpec, SelfV, St
+from pyvc import sym
 from pyvc.run import Unit
 from pyvc.sym import (B, I, NONE, S, BoolV, ClassV, CoroV, DictV, ExtV, FuncV, IntL, IntV, KwV, NoneV, OptV, PlaceV, Ref, RefL, RefV,
                       SemV, SeqV, SetV, StrV, TupleV, Unsupported, V, fresh)
@@ -251,3 +252,133 @@ def _raised_at(tr, idx, s):
 for _o in ("all",):
     UNITS.append(Unit("pool.BaseTaskPool._task_wrapper[thread]", wrapper_unit(_o), ("C02", "C03", "C12", "C13", "C01", "C11"), WRAPPER_FUNCS,
                       theory_factory=lambda: PoolTheory("TaskPool"), trusted=TRUSTED))
+
+
+# ======================================================================================================
+# _start_task  (C01 token acquired before the task exists, C02 token hand-off, C10 group membership,
+#               C11 ids dense/ordered/named, C09 rejection leaves no trace, C07 no start after cancel)
+# ======================================================================================================
+def pool_str(sh) -> z3.ExprRef:
+    """'<ClassName>-<name or index>'  (property C11: unnamed pools get distinct names; docs of __str__)"""
+    from pyvc import sym
+
+    nm: OptV = sh["_name"]
+    use_name = z3.And(z3.Not(nm.isnone), sym.str_nonempty(nm.inner.t))
+    return sym.str_concat([sh["clsname"], "-", StrV(z3.If(use_name, nm.inner.t, sym.itos(sh["_idx"].t)))])
+
+
+def start_task_rejection(sh, a):
+    """(class, condition) in the documented order of checks"""
+    aw = a["awaitable"].t
+    is_coro = z3.And(aw != NONE, z3.Select(z3.Const("is_coro", z3.ArraySort(Ref, B)), aw))
+    closed = sh["_closed"].is_set
+    locked = z3.And(sh["_locked"].t, z3.Not(a["ignore_lock"].t))
+    return [("NotCoroutine", z3.Not(is_coro)), ("PoolIsClosed", z3.And(is_coro, closed)), ("PoolIsLocked", z3.And(is_coro, z3.Not(closed), locked))], z3.And(is_coro, z3.Not(closed), z3.Not(locked))
+
+
+def start_task_post(th: PoolTheory, seg, new, me, a, result, ecb_ref, ccb_ref):
+    """effect of the final atomic segment of _start_task (old = state at the start of that segment)"""
+    o, n = PView(seg), PView(new)
+    sel = z3.Select
+    r = result
+    t = n.Rv(r)
+    g = a["group_name"].t
+    i = z3.Int("i!s")
+    h = z3.Const("h!s", S)
+    u = z3.Const("u!s", Ref)
+    cl = []
+    cl.append(("id-is-next", z3.And(r == o.n, n.n == o.n + 1), ("C11",)))
+    cl.append(("registered-running", z3.And(n.R.has(r), t != NONE, sel(o.kind, t) == K_NONE, sel(n.kind, t) == K_WRAPPER, sel(n.loc, t) == L_NS,
+                                            z3.Not(sel(n.creq, t)), z3.Not(sel(n.cever, t)), sel(n.tid, t) == r, sel(n.wt, r) == t), ("C11", "C03")))
+    cl.append(("wrapper-gets-exactly-the-passed-objects", z3.And(sel(n.aw, t) == a["awaitable"].t, sel(n.ecb, t) == ecb_ref, sel(n.ccb, t) == ccb_ref), ("C04", "C05", "C03")))
+    cl.append(("task-name-shows-id", sel(n.tname, t) == sym.str_concat([pool_str(new), "_Task-", StrV(sym.itos(r))]).t, ("C11",)))
+    cl.append(("token-handed-to-wrapper", z3.And(sel(n.tok, t), z3.Not(sel(n.tok, me)), n.sem.out == o.sem.out + 1, sel(n.mtok, t) == sel(o.mtok, me), z3.Not(sel(n.mtok, me)),
+                                                 sel(n.msem, t) == sel(o.msem, me)), ("C02", "C01", "C05")))
+    cl.append(("only-this-id-added-to-running", z3.ForAll([i], z3.Implies(i != r, z3.And(n.R.has(i) == o.R.has(i), n.Rv(i) == o.Rv(i)))), ("C11", "C03")))
+    cl.append(("newest-is-last-in-order", z3.And(sel(n.R.stamp, r) == o.R.nstamp, n.R.nstamp == o.R.nstamp + 1,
+                                                 z3.ForAll([i], z3.Implies(i != r, sel(n.R.stamp, i) == sel(o.R.stamp, i)))), ("C14",)))
+    cl.append(("added-to-the-named-group-only", z3.And(
+        n.G.has(g), n.Gids(g, r), sel(n.grp, t) == g, z3.Not(n.Glock(g)),
+        z3.ForAll([i], z3.Implies(i != r, n.Gids(g, i) == z3.And(o.G.has(g), o.Gids(g, i)))),
+        z3.ForAll([h], z3.Implies(h != g, z3.And(n.G.has(h) == o.G.has(h), sel(n.G.cols[0], h) == sel(o.G.cols[0], h), sel(n.G.cols[1], h) == sel(o.G.cols[1], h), n.Glock(h) == o.Glock(h))))), ("C10",)))
+    cl.append(("other-threads-ghost-unchanged", z3.ForAll([u], z3.Implies(z3.And(u != t, u != me), z3.And(
+        sel(n.kind, u) == sel(o.kind, u), sel(n.loc, u) == sel(o.loc, u), sel(n.creq, u) == sel(o.creq, u), sel(n.cever, u) == sel(o.cever, u),
+        sel(n.tok, u) == sel(o.tok, u), sel(n.mtok, u) == sel(o.mtok, u), sel(n.tid, u) == sel(o.tid, u), sel(n.grp, u) == sel(o.grp, u),
+        sel(n.aw, u) == sel(o.aw, u), sel(n.ecb, u) == sel(o.ecb, u), sel(n.ccb, u) == sel(o.ccb, u), sel(n.tname, u) == sel(o.tname, u), sel(n.msem, u) == sel(o.msem, u)))), ("C11",)))
+    cl.append(("my-ghost", z3.And(sel(n.kind, me) == sel(o.kind, me), sel(n.loc, me) == sel(o.loc, me), sel(n.grp, me) == sel(o.grp, me), z3.Not(sel(n.creq, me)),
+                                  sel(n.cever, me) == sel(o.cever, me), sel(n.msem, me) == sel(o.msem, me)), ("C07",)))
+    cl.append(("wt-others", z3.ForAll([i], z3.Implies(i != r, sel(n.wt, i) == sel(o.wt, i))), ("C11",)))
+    cl.append(("semaphore-otherwise-consistent", z3.And(n.sem.v.inf == o.sem.v.inf, n.sem.g >= 0, n.sem.P >= 0), ("C01",)))
+    return cl
+
+
+START_TASK_MODIFIES = ("_num_started", "_tasks_running", "_task_groups", "_enough_room", "kind", "loc", "creq", "cever", "tok", "mtok", "tid", "grp",
+                       "aw", "ecb", "ccb", "tname", "wt", "msem")
+
+
+def spawner_start_args(st: St, th: PoolTheory):
+    a = {"awaitable": RefV(fresh("a_coro", Ref)), "group_name": StrV(fresh("a_group", S)), "ignore_lock": BoolV(fresh("a_ignore_lock", B)),
+         "end_callback": RefV(fresh("a_ecb", Ref)), "cancel_callback": RefV(fresh("a_ccb", Ref))}
+    return a
+
+
+@unit("pool.BaseTaskPool._start_task", ("C01", "C02", "C07", "C09", "C10", "C11", "C14"),
+      ["pool.BaseTaskPool._start_task", "pool.BaseTaskPool._check_start", "pool.BaseTaskPool._task_name", "pool.BaseTaskPool.__str__",
+       "group_register.TaskGroupRegister.__aenter__", "group_register.TaskGroupRegister.__aexit__", "group_register.TaskGroupRegister.add"])
+def u_start_task(ip: Interp, th: PoolTheory):
+    install(ip)
+    st = th.initial()
+    me = st.me
+    p0 = PView(st)
+    st.assume(p0.is_spawner(me))
+    st.assume(z3.Select(p0.loc, me) == L_RUN)
+    st.assume(z3.Not(z3.Select(p0.creq, me)))
+    a = spawner_start_args(st, th)
+    st.assume(a["group_name"].t == z3.Select(p0.grp, me))
+    st.assume(a["awaitable"].t != NONE)
+    st.aux["start_group"] = a["group_name"].t
+    th.instantiate_for_me(st)
+    st0 = st.fork()
+    rej, accepted = start_task_rejection(st0.sh, a)
+
+    def spawn_hook(s: St):
+        p = PView(s)
+        ip.require(s, "spawn:spawner-not-cancelled", z3.Not(z3.Select(p.creq, me)), ("C07",))
+        ip.require(s, "spawn:holds-a-pool-slot", z3.Select(p.tok, me), ("C01", "C02"))
+
+    th.before_create_task = spawn_hook
+    for s, v in run_body(ip, th, st, "pool.BaseTaskPool._start_task", a):
+        suspended = any(e[0] == "obs" for e in s.trace)
+        if isinstance(v, Exit):
+            c = v.val.cls
+            conds = dict(rej)
+            if c in conds and not suspended:
+                ip.require(s, f"raises:{c}:documented-condition-and-order", conds[c], ("C09",))
+                unchanged(ip, s, st0, "rejected-leaves-no-trace", ("C09",))
+            elif c == "CancelledError" and getattr(v.val, "origin", "") == "delivered":
+                # cancelled while waiting for room: nothing of mine is left behind
+                th.check_point(s, "cancelled-exit")  # I10 exempts me: my request flag stays set until I end
+                seg = s.aux["seg0"]
+                unchanged(ip, s, _as_state(seg), "cancelled-start-changes-nothing", ("C02", "C11"), except_=("creq", "_enough_room"))
+                ip.require(s, "cancelled:no-slot-retained", z3.Not(th.ghost(s, "tok", me)), ("C02",))
+                ip.require(s, "cancelled:slot-count-consistent", PView(s).sem.out == PView(seg).sem.out, ("C02",))
+            else:
+                no_exit(ip, s, f"noraise:{c}", ("C09", "C12"))
+            continue
+        ip.require(s, "accepted:only-if-no-rejection-cause", accepted, ("C09",))
+        th.check_point(s, "return")
+        seg = s.aux["seg0"]
+        if not isinstance(v, IntV):
+            no_exit(ip, s, "post:returns-an-int", ("C11",))
+            continue
+        for name, f, props in start_task_post(th, seg, s.sh, me, a, v.t, a["end_callback"].t, a["cancel_callback"].t):
+            ip.require(s, f"post:{name}", f, props)
+        unchanged(ip, s, _as_state(seg), "final-segment", ("C11", "C09"), except_=START_TASK_MODIFIES)
+        n_obs = sum(1 for e in s.trace if e[0] == "obs")
+        ip.require(s, "post:suspends-at-most-once", z3.BoolVal(n_obs <= 1), ("C11",))
+
+
+def _as_state(sh) -> St:
+    s = St()
+    s.sh = sh
+    return s
